@@ -329,6 +329,7 @@ class QosWorld:
                 rec["res"] = ("pkt", str(pkt), pkt._hdr if pkt is not None else None)
             except asyncio.CancelledError:
                 rec["res"] = ("cancelled",)
+                rec["end_t"] = self.loop.time()
                 raise
             except BaseException as e:  # noqa: BLE001
                 rec["res"] = ("exc", type(e).__name__, isinstance(e, L["exc"].ProtocolError), str(e)[:120])
@@ -386,6 +387,10 @@ class QosWorld:
             acts.append((("pause",), 1))
         if "pause" in dev and self.paused and self.connected:  # (an MQTT gateway going offline and coming back online)
             acts.append((("resume",), 1))
+        if "cancel" in dev:  # the owner of a call gives up on it (its task is cancelled) - not the send time-out, which the library runs itself
+            for i, c in enumerate(self.callers):
+                if c is not None and c["res"] is None and not c.get("cancelled"):
+                    acts.append((("cancel", i), 1))
         if "call" in dev:
             for i in unstarted:
                 if (("call", i), 0) not in acts:
@@ -439,6 +444,10 @@ class QosWorld:
             else:
                 err = None  # clean close
             loop.call_soon(self.proto.connection_lost, err)
+        elif k == "cancel":
+            self.callers[a[1]]["cancelled"] = True
+            self.callers[a[1]]["task"].cancel()
+            self.callers[a[1]]["res"] = ("cancelled",)  # (a task cancelled before its first step never runs its own handler)
         elif k == "arm_wfail":
             self.fail_next_write = True
         elif k == "pause":
@@ -640,7 +649,7 @@ def canon(w: "QosWorld") -> tuple:
     callers = tuple(
         None
         if c is None
-        else (c["res"] if c["res"] is None or c["res"][0] != "pkt" else ("pkt", c["res"][1]), round(now - c["start_t"], 6) if c["end_t"] is None else "ended")
+        else (c["res"] if c["res"] is None or c["res"][0] != "pkt" else ("pkt", c["res"][1]), round(now - c["start_t"], 6) if c["end_t"] is None else "ended", bool(c.get("cancelled")), c["task"].done())
         for c in w.callers
     )
     pending = tuple((p["kind"], p["frame"], bool(p.get("dup"))) for p in w.pending)
